@@ -721,6 +721,11 @@ class SsbGraphMinimizer:
                         e = self._reconnect(g, v_before, in_edges[0], v_after, True)
                         e["flow_level"] = e["flow_level"] + 1
                         self._update_edge_style(e)
+                    elif v.index == 0:
+                        # The routine starts with this jump: it is the entry point and has to stay.
+                        if len(out_edges) == 1 and isinstance(out_edges[0].target_vertex["op"], SsbLabel):
+                            out_edges[0].target_vertex["op"].force_write = True
+                        continue
                     vs_to_delete.add(v)
             g.delete_vertices(vs_to_delete)
             vs_to_delete = set()
